@@ -191,7 +191,7 @@ def build(wiring):
 
 
 def emit(net, lenvecs, mode, W, offs=None, module="MC", invariants=("NoPanic", "SingleReader", "Report"),
-         extra_cfg=""):
+         extra_cfg="", seed_checked=True):
     """returns (tla_text, cfg_text)"""
     P = net.procs
     np_, nc = len(P), len(net.caps)
@@ -219,6 +219,7 @@ def emit(net, lenvecs, mode, W, offs=None, module="MC", invariants=("NoPanic", "
            " Par <- MCPar", " Par2 <- MCPar2", " Lab <- MCLab", " Cap <- MCCap", " Writer <- MCWriter",
            " Readers <- MCReaders", " Unsafe <- MCUnsafe", " MultiRead <- MCMultiRead", " LenVecs <- MCLenVecs",
            ' Mode = "%s"' % mode, " W = %d" % W, " Off <- MCOff",
+           " SeedChecked = %s" % ("TRUE" if seed_checked else "FALSE"),
            "INIT Init", "NEXT Next", "CHECK_DEADLOCK FALSE"]
     if invariants:
         cfg.append("INVARIANTS " + " ".join(invariants))
